@@ -30,6 +30,7 @@ def run(ctx):
     queryvar.qv4(ctx)
     queryvar.qv5(ctx)
     queryvar.qv6(ctx)
+    queryvar.qv7(ctx)
     from ..rules import shape_rules as _sr
     from ..shape import Shapes as _Shapes
     _sr.sh6(ctx, _Shapes(ctx.model))     # `None clears the query`: the stored query is '' then, never None
